@@ -62,7 +62,12 @@ class VLoop(asyncio.BaseEventLoop):
         return False
 
     def has_ready(self):
-        return any(not h._cancelled for h in self._ready)
+        """is there anything an iteration would run right now (ready handles
+        or timers that are due)?"""
+        if any(not h._cancelled for h in self._ready):
+            return True
+        t = self.next_timer()
+        return t is not None and t < self._vtime + self._clock_resolution
 
     def next_timer(self):
         while self._scheduled and self._scheduled[0]._cancelled:
